@@ -69,34 +69,45 @@ def run(program, res, tier):
     # iteration over all keys, unfiltered, deterministic order
     comps = [c for c in ast.walk(call) if isinstance(c, (ast.ListComp, ast.GeneratorExp))]
     if not comps:
-        raise AnalysisError("make_cache_key: per-table component is not a comprehension")
-    comp = comps[0]
-    gen = comp.generators[0]
-    it_roots = d.roots_at(r, gen.iter)
-    if gen.ifs:
-        res.fail_at("C25-S1", mk, "tables-filtered", f"the per-table key component skips tables (`if {unparse(gen.ifs[0])}`)", comp)
-    elif "data_map" not in it_roots:
-        res.fail_at("C25-S1", mk, "tables-iteration", "the per-table key component does not iterate over the data map's keys", comp)
-    else:
-        res.ok("C25-S1", "make_cache_key: every table of the data map contributes, unfiltered")
-    if isinstance(gen.iter, ast.Subscript) or (isinstance(gen.iter, ast.Call) and dotted_name(gen.iter.func) in ("islice", "itertools.islice")):
-        res.fail_at("C25-S1", mk, "tables-sliced", f"only part of the tables contributes (`{unparse(gen.iter)}`)", comp)
-    sorted_keys = any(isinstance(c, ast.Call) and isinstance(c.func, ast.Attribute) and c.func.attr == "sort" for c in ast.walk(mk.node)) \
-        or any(isinstance(c, ast.Call) and dotted_name(c.func) == "sorted" for c in ast.walk(mk.node))
-    if sorted_keys:
-        res.ok("C25-S1", "make_cache_key: tables are keyed in a deterministic (sorted) order")
-    else:
-        res.fail_at("C25-S1", mk, "unordered", "table keys are not sorted: equal data maps built in a different order would get different keys")
-    # element = (name, hash of that table)
-    elt = comp.elt
-    tname = gen.target.id if isinstance(gen.target, ast.Name) else None
-    elt_txt = unparse(elt)
-    hcalls = [c for c in ast.walk(elt) if isinstance(c, ast.Call) and dotted_name(c.func) == "hash_data_frame"]
-    if tname and isinstance(elt, ast.Tuple) and any(isinstance(e, ast.Name) and e.id == tname for e in elt.elts) and hcalls \
-            and unparse(hcalls[0].args[0]) == f"data_map[{tname}]":
-        res.ok("C25-S1", "make_cache_key: each table contributes (name, hash_data_frame(data_map[name]))")
-    else:
-        res.fail_at("C25-S1", mk, "table-component", f"per-table component is `{elt_txt}`, expected (name, hash_data_frame(data_map[name]))", comp)
+        # names and hashes collected apart and joined by position: zip(names, hashes) ties a hash to a table name only if both sequences
+        # are in the same order, and each of them is put in an order of its own (sorted names / sorted or map-ordered hashes)
+        zips = [c for c in ast.walk(call) if isinstance(c, ast.Call) and dotted_name(c.func) == "zip"]
+        if zips:
+            res.fail_at("C25-S1", mk, "table-component-paired-by-position",
+                        f"the per-table key component is `{unparse(zips[0])[:70]}`: table names and frame hashes are collected separately and paired by position, so the key "
+                        f"records the set of names and the multiset of hashes but not which table holds which frame — {{d1: A, d2: B}} and {{d1: B, d2: A}} share an entry "
+                        f"(expected one element (name, hash_data_frame(data_map[name])) per name)", zips[0])
+            comps = []
+        else:
+            raise AnalysisError("make_cache_key: per-table component is not a comprehension")
+    if comps:
+        comp = comps[0]
+        gen = comp.generators[0]
+        it_roots = d.roots_at(r, gen.iter)
+        if gen.ifs:
+            res.fail_at("C25-S1", mk, "tables-filtered", f"the per-table key component skips tables (`if {unparse(gen.ifs[0])}`)", comp)
+        elif "data_map" not in it_roots:
+            res.fail_at("C25-S1", mk, "tables-iteration", "the per-table key component does not iterate over the data map's keys", comp)
+        else:
+            res.ok("C25-S1", "make_cache_key: every table of the data map contributes, unfiltered")
+        if isinstance(gen.iter, ast.Subscript) or (isinstance(gen.iter, ast.Call) and dotted_name(gen.iter.func) in ("islice", "itertools.islice")):
+            res.fail_at("C25-S1", mk, "tables-sliced", f"only part of the tables contributes (`{unparse(gen.iter)}`)", comp)
+        sorted_keys = any(isinstance(c, ast.Call) and isinstance(c.func, ast.Attribute) and c.func.attr == "sort" for c in ast.walk(mk.node)) \
+            or any(isinstance(c, ast.Call) and dotted_name(c.func) == "sorted" for c in ast.walk(mk.node))
+        if sorted_keys:
+            res.ok("C25-S1", "make_cache_key: tables are keyed in a deterministic (sorted) order")
+        else:
+            res.fail_at("C25-S1", mk, "unordered", "table keys are not sorted: equal data maps built in a different order would get different keys")
+        # element = (name, hash of that table)
+        elt = comp.elt
+        tname = gen.target.id if isinstance(gen.target, ast.Name) else None
+        elt_txt = unparse(elt)
+        hcalls = [c for c in ast.walk(elt) if isinstance(c, ast.Call) and dotted_name(c.func) == "hash_data_frame"]
+        if tname and isinstance(elt, ast.Tuple) and any(isinstance(e, ast.Name) and e.id == tname for e in elt.elts) and hcalls \
+                and unparse(hcalls[0].args[0]) == f"data_map[{tname}]":
+            res.ok("C25-S1", "make_cache_key: each table contributes (name, hash_data_frame(data_map[name]))")
+        else:
+            res.fail_at("C25-S1", mk, "table-component", f"per-table component is `{elt_txt}`, expected (name, hash_data_frame(data_map[name]))", comp)
     # ---- S1: dtype names that do not say what the cells are: "object" and "category" (a categorical column is "category" whether its categories are
     # int8, int64, str or bool, and pandas hashes the categories' bit patterns / str()): the per-cell types have to be collected for both, and the
     # categories' own dtype has to be in the key
